@@ -180,7 +180,11 @@ def gen_c17(r, tier):
             if op['cmd'] == 'detect' and r.chance(0.2):
                 op['argv'].append(r.pick(['-a', '-f', '-7']))
             op['argv'] = respell(r, op['argv'])
-    return {'config': {'frames': [spec]}, 'ops': ops}
+    return {'config': {'frames': [spec],
+                       'default_encoding': r.weighted([(8, None),
+                                                       (1, 'cp1252'),
+                                                       (1, 'latin-1')])},
+            'ops': ops}
 
 
 LONG = {'-r': '--rex', '-R': '--norex', '-7': '--ascii',
@@ -318,6 +322,16 @@ def op_stale_cwd(ctx, op):
 
 
 def run_cli(ctx, argv, stdin_text=None):
+    enc = getattr(ctx, 'default_encoding', None)
+    if enc:
+        # a process whose preferred text encoding is not UTF-8
+        from sim.defaultenc import DefaultEncoding
+        with DefaultEncoding(enc, ctx.stats['faults']):
+            return run_cli_inner(ctx, argv, stdin_text)
+    return run_cli_inner(ctx, argv, stdin_text)
+
+
+def run_cli_inner(ctx, argv, stdin_text=None):
     """One CLI invocation as a simulated process."""
     from tdda.constraints import console
     saved = (sys.argv, sys.stdin, sys.stdout, sys.stderr)
